@@ -342,6 +342,78 @@ example : (buildTrie 2 (-1) exDicts).map (fun b =>
 example : (buildTrie 2 (-1) exDicts).map (fun b => rowOf b 2 (-1) [-1, 1]) =
     some [LogP.fin (-3), LogP.negInf] := by decide +kernel
 
+/-- **All hypotheses of `C06_lookup_checked` and `C06_shape_roundtrip` together** on the sparse
+trigram table `exDicts` (start symbol outside the vocabulary, a missing bigram and unigram, a
+`-inf` entry): `buildTrie` accepts it, the built buffers pass `checkBuilt`, keys and window are
+valid, and the theorem (not an evaluation) gives the row for the window `<s> 1` as the Katz
+recursion on the raw table; the recursion really backs off there (`P(1 | <s> 1) = -inf`:
+nothing listed) and takes the listed trigram for token `0`. -/
+theorem C06_lookup_checked_nonvacuous :
+    ∃ b, buildTrie 2 (-1) exDicts = some b ∧ b.N = 3 ∧ b.G = 2 ∧
+      inferShape 2 (-1) b.offsets b.ids.size b.logps.size = some (3, 2, b.S) ∧
+      rowOf b 2 (-1) [-1, 1] =
+        (List.range 2).map (fun w => LogP.ofOption (bo (ofList (tableOf exDicts)) (Int.ofNat w) [-1, 1])) ∧
+      (List.range 2).map (fun w => LogP.ofOption (bo (ofList (tableOf exDicts)) (Int.ofNat w) [-1, 1])) =
+        [LogP.fin (-3), LogP.negInf] := by
+  have h : (buildTrie 2 (-1) exDicts).map (checkBuilt 2 (-1) exDicts) = some true := by decide +kernel
+  cases hb : buildTrie 2 (-1) exDicts with
+  | none => rw [hb] at h; cases h
+  | some b =>
+    rw [hb] at h
+    have hchk : checkBuilt 2 (-1) exDicts b = true := by simpa using h
+    have hs := C06_shape_roundtrip 2 (-1) exDicts b hb (by unfold keysNodup; decide)
+    have hN : b.N = 3 := hs.2.1
+    have hG : b.G = 2 := hs.2.2
+    refine ⟨b, rfl, hN, hG, ?_, ?_, by decide +kernel⟩
+    · have h1 := hs.1
+      rw [hN, hG] at h1
+      exact h1
+    · exact C06_lookup_checked 2 (-1) exDicts b hchk (by decide) [-1, 1] (by rw [hN]; decide) (by decide)
+
+/-- A bigram window in which two back-offs are actually taken, through the theorem:
+`P(0 | 0 0)`: `(0,0,0)` and `(0,0)` are not listed, `β(0,0) = 0` (implicit suffix node of
+`(0,0,1)`), `β(0) = -1/2`, `P(0) = -1`. -/
+example : (List.range 2).map (fun w => LogP.ofOption (bo (ofList (tableOf exDicts)) (Int.ofNat w) [0, 0])) =
+    [LogP.fin (-3/2), LogP.fin (-1/4)] := by decide +kernel
+
+/-- The state before the bigram level of a *trigram* model with three unigram nodes
+(`O = 3 + 1 + 3 + 1`, `G = 2`, `U = 4`). -/
+def exFill3 : Fill :=
+  { offsets := Array.replicate 8 0, ids := Array.replicate 6 0, logps := Array.replicate 10 (.fin 0),
+    logbs := Array.replicate 8 (.fin 0), allocated := 3, lastStart := 0,
+    parents := [([0], 0), ([1], 1), ([2], 2)] }
+
+/-- … and after it: the bigram nodes occupy the cells `4, 5, 6` (reversed keys `(0,2)`,
+`(1,0)`, `(1,1)`), the dummy cell `3` in front of them is non-zero. -/
+def exFillB : Fill := fillLevel 4 false exLevel exFill3
+
+/-- Trigrams `(2,0,1)` and `(0,0,1)`: both children of the bigram node `5` (reversed key
+`(1,0)`); the bigram node `4` in front of it and the trailing node `6` are childless. -/
+def exTri : List Item := [⟨[2, 0, 1], .fin (-1), .fin 0⟩, ⟨[0, 0, 1], .fin (-2), .fin 0⟩]
+
+/-- **All hypotheses of `C06_level_offsets` together**, on a level that is *not* the first one
+(`lo = 4 > 0`: the guard is the non-zero dummy cell, the walk-back over the childless node `4`
+stops there; the trailing childless node `6` is filled by the trailing loop): the theorem
+yields `q + offsets[q] = 8 + #{children of earlier parents}` for `q = 4, 5, 6`. -/
+theorem C06_level_offsets_nonvacuous :
+    (∀ q, 4 ≤ q → q < 7 →
+      (fillLevel 4 true exTri exFillB).offsets.getD q 0 + q = 8 + ([5, 5] : List Nat).countP (fun x => decide (x < q))) ∧
+    (fillLevel 4 true exTri exFillB).offsets.getD 7 0 = 3 ∧
+    (fillLevel 4 true exTri exFillB).offsets.toList = [4, 4, 5, 4, 4, 3, 4, 3] := by
+  have hps : (sortLevel exTri).map
+      (fun e => (exFillB.parents.lookup e.key.dropLast).getD 0 + exFillB.lastStart) = [5, 5] := by decide
+  have halloc : exFillB.allocated = 7 := by decide
+  have h := C06_level_offsets 4 true exTri exFillB 4 (by decide) (by decide)
+    (by rw [hps]; decide) (by rw [hps, halloc]; decide) (by decide)
+    (by
+      intro q h1 h2
+      rw [halloc] at h2
+      have : q = 4 ∨ q = 5 ∨ q = 6 := by omega
+      rcases this with rfl | rfl | rfl <;> decide)
+    (Or.inr (by decide))
+  rw [hps, halloc] at h
+  exact ⟨h.1, h.2.1, by decide⟩
+
 
 /-- A sparse trigram table: the bigram `(2,0)` and the unigram `2` are not listed although
 `(2,2,0)` is; `(0,1)` has a back-off weight. -/
@@ -372,6 +444,16 @@ example : context 4 (-1) (col [[1, 0], [0, 2], [1, 2]] 0) 1 = [-1, -1, 1] := by 
 -- per-element windows share one padding but differ per element
 example : windowsVec 3 7 2 [[1, 0], [0, 2], [1, 2]] [3, 1] = [[0, 1], [7, 0]] := by decide
 
+-- all hypotheses of the window / chunk theorems together, on the bigram buffers `exBuf`
+-- (order 2, `B = 2`, `T = 3`, per-element indices 3 and 1, chunk size 2 – the last chunk is short):
+example := C06_idx_scalar exBuf 2 0 2 [[1, 0], [0, 1], [1, 1]] 2 (by decide)
+example := C06_idx_vec exBuf (by decide) 2 0 2 [[1, 0], [0, 1], [1, 1]] [3, 1] (by decide) (by decide)
+example := C06_chunk exBuf 2 0 2 [[1, 0], [0, 1], [1, 1]] (by decide) 2 (by decide)
+example := C06_full_get_vec exBuf (by decide) 2 0 2 [[1, 0], [0, 1], [1, 1]] (by decide) 2 (by decide)
+  [3, 1] (by decide) (by decide) 1 (by decide)
+-- … and on a non-contiguous view (transposed batch-first tensor), chunk size 2
+example := C06_chunk_layout exBuf 2 0 ⟨[1, 0, 1, 0, 1, 1], 0, 1, 3, 3, 2⟩ 2 (by decide)
+
 end PdtVerif.NgramTrie
 
 namespace PdtVerif.NgramArpa
@@ -401,7 +483,7 @@ def exTok (x : String) : Field := ⟨x, some 7⟩
 def exTable : List (List PEntry) :=
   [[⟨["7"], -1, some (-2)⟩, ⟨["10"], -3, some 0⟩], [⟨["7", "10"], -4, none⟩, ⟨["10", "10"], -5, none⟩]]
 
-example : TableWf exTable := by
+theorem exTable_wf : TableWf exTable := by
   intro i d h
   match i, h with
   | 0, h => cases h; exact ⟨by intro e he; simp at he; rcases he with rfl | rfl <;> constructor <;> simp [exTable], by decide⟩
@@ -409,5 +491,18 @@ example : TableWf exTable := by
   | n + 2, h => simp [exTable] at h
 
 example : (parseArpa (printArpa true exTok exTable)).toOption = some exTable := by decide +kernel
+
+/-- **All hypotheses of `C06_arpa` together**: a two-order table all of whose tokens read as
+numbers, one zero back-off left out by the writer (`implicit = true`) – through the theorem. -/
+theorem C06_arpa_nonvacuous : parseArpa (printArpa true exTok exTable) = .ok exTable :=
+  C06_arpa true exTok (fun _ => rfl) exTable exTable_wf
+
+/-- **All hypotheses of `C06_arpa_entry` together**: a unigram line of a bigram file whose
+token `"10"` reads as a number and whose zero back-off is left out – the one line on which the
+implicit back-off rule could be suspected to eat the token (it has `n` fields, the rule needs `n+1`). -/
+example : ∃ p fs, printEntry true (1 == 2) exTok ⟨["10"], -3, some 0⟩ = .entry p fs ∧
+    addEntry 2 1 [[], []] p fs = some ([[], []].modify (1 - 1) (fun d => insert d ⟨["10"], -3, some 0⟩)) :=
+  C06_arpa_entry true exTok (fun _ => rfl) 2 1 (by decide) ⟨["10"], -3, some 0⟩
+    ⟨rfl, by simp⟩ [[], []]
 
 end PdtVerif.NgramArpa
